@@ -59,6 +59,7 @@ structure Conn where
   rd : Rd
   wpol : List WPol := []
   log : Bytes := []
+  cerr : Bool := false          -- `Close` of this connection reports an error (it closes all the same)
 deriving DecidableEq, Repr
 
 structure Tx where
@@ -888,24 +889,26 @@ def S.readSlices (s : S) : S × RsResult :=
       | (s, .done none) => s.rsAfterConnect
     else s.rsAfterConnect
 
-/-- the read loop of `BigMessage.ReadAll`: a deadline expiry that saw progress is tolerated, as in `discard` -/
-def readAllLoop : Nat → Rd → Nat → Bytes → Rd × Except Err Bytes
-  | 0, rd, _, _ => (rd, .error (mkErr ["other"]))
+/-- the read loop of `BigMessage.ReadAll`: a deadline expiry that saw progress is tolerated, as in `discard`. The flag tells
+whether a read failed (as opposed to the arming of the deadline on a connection closed already) -/
+def readAllLoop : Nat → Rd → Nat → Bytes → Rd × Except Err Bytes × Bool
+  | 0, rd, _, _ => (rd, .error (mkErr ["other"]), false)
   | fuel + 1, rd, size, acc =>
-    if rd.closed then (rd, .error (mkErr [rerrTag .closed])) else      -- arming the deadline fails, nothing is read
+    if rd.closed then (rd, .error (mkErr [rerrTag .closed]), false) else      -- arming the deadline fails, nothing is read
     match rd.readFull (size - acc.length) with
-    | (rd, bs, none) => (rd, .ok (acc ++ bs))
+    | (rd, bs, none) => (rd, .ok (acc ++ bs), false)
     | (rd, bs, some e) =>
       if e == .timeout && !bs.isEmpty then readAllLoop fuel rd size (acc ++ bs)
-      else (rd, .error (mkErr [if e == .eof && !bs.isEmpty then "ueof" else rerrTag e]))
+      else (rd, .error (mkErr [if e == .eof && !bs.isEmpty then "ueof" else rerrTag e]), true)
 
-/-- `BigMessage.ReadAll` (client.go:1379-1416) -/
+/-- `BigMessage.ReadAll` (client.go:1396-1436): after a failed read the connection stands somewhere inside the payload and is
+given up (F26) -/
 def S.readAll (s : S) : S × Except Err Bytes :=
   match s.big, s.rd? with
   | some size, some rd =>
     let s := { s with big := none }
     match readAllLoop (size + 1) rd size [] with
-    | (rd, r) => (s.setRd rd, r)
+    | (rd, r, failed) => (if failed then (s.setRd rd).toOffline else s.setRd rd, r)
   | _, _ => (s, .error (mkErr ["other"]))
 
 /-! ### Requests -/
@@ -1084,9 +1087,11 @@ def S.disconnectNow (s : S) : S × Err :=
   | .live =>
     if s.gateAhead then (s, mkErr ["unsupported"]) else
     let (s, o) := s.connWrite (writeTo · packetDISCONNECT)
+    let cerr := match s.conn with | some c => c.cerr | none => false
     let s := s.closeConn
     let s := (({ s with link := .closed, connSemClosed := true }).failWaiters (mkErr ["closed"])).finishClosers
-    (s, if o == .ok then errOk else mkErr ["submit", woutTag o])
+    -- a failed write wins over a failed Close; either way the error is an ErrSubmit (F27)
+    (s, if o == .ok then (if cerr then mkErr ["submit", "hard"] else errOk) else mkErr ["submit", woutTag o])
 
 inductive CloseResult | ret (e : Err) | blocked | unsupported (why : String)
 deriving DecidableEq, Repr
